@@ -562,6 +562,30 @@ class Machine(Interp):
             COVERAGE.add((fr.globals.get("__name__", "?"), f"{node.lineno}:{node.col_offset}:if-false"))
         return (yield from self.exec_block(node.orelse, fr))
 
+    def s_Delete(self, node, fr):
+        for t in node.targets:
+            if isinstance(t, ast.Subscript):
+                obj = yield from self.eval(t.value, fr)
+                idx = yield from self.eval_index(t.slice, fr)
+                if isinstance(obj, list) and idx == -1:
+                    self.list_method(obj, "pop", [], {})
+                elif isinstance(obj, list) and idx == 0 and not has_seg(obj):
+                    self.list_method(obj, "pop", [0], {})
+                elif isinstance(obj, dict) and not contains_symbolic(idx, 1):
+                    if idx not in obj:
+                        raise IRaise(KeyError(idx))
+                    del obj[idx]
+                    ctx().writes.append(("item", obj, idx))
+                else:
+                    raise Unsupported("del of this subscript")
+            elif isinstance(t, ast.Name):
+                if t.id not in fr.locals:
+                    raise IRaise(UnboundLocalError(t.id))
+                del fr.locals[t.id]
+            else:
+                raise Unsupported("del target")
+        return NORMAL
+
     def s_Assert(self, node, fr):
         t = yield from self.eval(node.test, fr)
         if not ops.truth(t):
@@ -1054,6 +1078,11 @@ class Machine(Interp):
             raise Restart(key, _merge(mode, {"split0": True}))
         for name in list(accs):
             a = fold_results.get(name)
+            if isinstance(a, ops.StrAcc) and a.acc is accs[name] and isinstance(before[name], ops.STRLIKE):
+                # string accumulation: before + piece(0) + piece(1) + ...
+                from .tmpl import tcat, tjoin
+                fr.locals[name] = tcat(before[name], tjoin("", [Seg(("strfold", name) + key, seg.length, j, [tcat(*a.parts)], seg.rev)]))
+                continue
             fr.locals[name] = Fold(("fold", name) + key, seg.length, j, before[name], accs[name], a, seg.rev)
         for name, cst in affine.items():
             fr.locals[name] = mk_int(zint(before[name]) + cst * n)
